@@ -158,7 +158,9 @@ def lattice(crop, acc, fine):
     tspan = max(float(cr.MaxCanopy) - float(cr.Emergence), 1.0) * 1.6
     dspan = max(float(cr.Maturity) - float(cr.Senescence), 1.0) * 1.6
     npts = 400 if fine else 200
-    for fx in (1.0, 0.8, 0.5):
+    # the last two: a maximum cover so reduced (leaf-expansion stress) that the initial cover is
+    # more than half of it
+    for fx in (1.0, 0.8, 0.5, cc0 / (0.6 * ccx), cc0 / (0.85 * ccx)):
         for fg in (1.0, 0.6, 0.3):
             X, G_ = ccx * fx, cgc * fg
             tt = np.linspace(0, tspan / fg, npts)
